@@ -453,15 +453,35 @@ def hashes(ctx):
                 steps[name] = canon
             if not (isinstance(nv[roles['p']], Ptr) and alg.is_zero(sp.sympify(nv[roles['p']].off) - o - 1)):
                 probs.append('cursor does not advance by one byte')
-            if not tx.finals or any(r != h for s_, r in tx.finals):
-                probs.append('returned value is not the accumulator')
+            def ne0(c, v):
+                return isinstance(c, alg.Cond) and c.rel() == '!=' and ((alg.is_zero(sp.sympify(c.a) - v) and c.b == 0) or (alg.is_zero(sp.sympify(c.b) - v) and c.a == 0))
+
+            def eq0(c, v):
+                return isinstance(c, alg.Cond) and c.rel() == '==' and ((alg.is_zero(sp.sympify(c.a) - v) and c.b == 0) or (alg.is_zero(sp.sympify(c.b) - v) and c.a == 0))
+            rotated = False
             if counted:
                 k = tx.sym[roles['n']]
                 if not alg.is_zero(nv[roles['n']] - k + 1):
                     probs.append('count becomes %s, expected count-1' % nv[roles['n']])
                 g = [c for c in s1.pc if isinstance(c, alg.Cond)]
-                if not any(c.rel() == '!=' and c.a == k and c.b == 0 for c in g):
+                if any(ne0(c, k) for c in g):
+                    pass
+                elif any(ne0(c, sp.sympify(nv[roles['n']])) for c in g):
+                    # rotated form  if (siz) do { step } while (--siz);  the test sits at the bottom on the new count: the same fold when the
+                    # loop is entered under siz != 0 only and the empty input returns the value parameter
+                    rotated = True
+                    siz_ = args[1]
+                    if not any(ne0(c, siz_) for c in tx.pre.pc) or not any(any(eq0(c, siz_) for c in s_.pc) and r_ == val for s_, r_ in getattr(tx, 'pre_rets', [])):
+                        probs.append('the loop tests the count at the bottom but is not entered under siz != 0 with siz == 0 returning the value parameter')
+                else:
                     probs.append('guard %s, expected count != 0' % g)
+            if rotated:
+                if not tx.finals or any(not alg.is_zero(sp.sympify(r) - sp.sympify(nv[roles['v']])) for s_, r in tx.finals):
+                    probs.append('returned value is not the new accumulator')
+            elif not tx.finals or any(r != h for s_, r in tx.finals):
+                probs.append('returned value is not the accumulator')
+            if counted:
+                pass
             else:
                 g = [c for c in s1.pc if isinstance(c, alg.Cond)]
                 if not any(c.rel() == '!=' and c.a == byte and c.b == 0 for c in g):
